@@ -354,7 +354,7 @@ func instEcalli(interp *Interpreter, pc ProgramCounter, skipLength ProgramCounte
 	lX := min(4, int(skipLength))
 
 	// zeta_{iota+1,...,lX}
-	instLength := interp.Program.InstructionData[pc+1 : pc+ProgramCounter(lX)+1]
+	instLength := zetaAt(interp.Program.InstructionData, pc)[pc+1 : pc+ProgramCounter(lX)+1]
 	x, err := utils.DeserializeFixedLength(types.ByteSequence(instLength), types.U64(lX))
 	if err != nil {
 		pvmLogger.Errorf("instEcalli deserialization error: %v", err)
@@ -371,9 +371,10 @@ func instEcalli(interp *Interpreter, pc ProgramCounter, skipLength ProgramCounte
 
 // opcode 20
 func instLoadImm64(interp *Interpreter, pc ProgramCounter, skipLength ProgramCounter) (ExitReason, ProgramCounter) {
-	rA := min(12, (int(interp.Program.InstructionData[pc+1]) % 16))
+	code := zetaAt(interp.Program.InstructionData, pc)
+	rA := min(12, (int(code[pc+1]) % 16))
 	// zeta_{iota+2,...,+8}
-	instLength := interp.Program.InstructionData[pc+2 : pc+10]
+	instLength := code[pc+2 : pc+10]
 	nuX, err := utils.DeserializeFixedLength(types.ByteSequence(instLength), types.U64(8))
 	if err != nil {
 		pvmLogger.Errorf("insLoadImm64 deserialization raise error: %v", err)
@@ -385,7 +386,7 @@ func instLoadImm64(interp *Interpreter, pc ProgramCounter, skipLength ProgramCou
 
 // opcode 30
 func instStoreImmU8(interp *Interpreter, pc ProgramCounter, skipLength ProgramCounter) (ExitReason, ProgramCounter) {
-	vx, vy, err := decodeTwoImmediates(interp.Program.InstructionData, pc, skipLength)
+	vx, vy, err := decodeTwoImmediates(zetaAt(interp.Program.InstructionData, pc), pc, skipLength)
 	if err != nil {
 		pvmLogger.Errorf("instStoreImmU8 decodeTwoImmediates error: %v", err)
 		return ExitPanic, pc
@@ -398,7 +399,7 @@ func instStoreImmU8(interp *Interpreter, pc ProgramCounter, skipLength ProgramCo
 
 // opcode 31
 func instStoreImmU16(interp *Interpreter, pc ProgramCounter, skipLength ProgramCounter) (ExitReason, ProgramCounter) {
-	vx, vy, err := decodeTwoImmediates(interp.Program.InstructionData, pc, skipLength)
+	vx, vy, err := decodeTwoImmediates(zetaAt(interp.Program.InstructionData, pc), pc, skipLength)
 	if err != nil {
 		pvmLogger.Errorf("instStoreImmU16 decodeTwoImmediates error: %v", err)
 		return ExitPanic, pc
@@ -411,7 +412,7 @@ func instStoreImmU16(interp *Interpreter, pc ProgramCounter, skipLength ProgramC
 
 // opcode 32
 func instStoreImmU32(interp *Interpreter, pc ProgramCounter, skipLength ProgramCounter) (ExitReason, ProgramCounter) {
-	vx, vy, err := decodeTwoImmediates(interp.Program.InstructionData, pc, skipLength)
+	vx, vy, err := decodeTwoImmediates(zetaAt(interp.Program.InstructionData, pc), pc, skipLength)
 	if err != nil {
 		pvmLogger.Errorf("instStoreImmU32 decodeTwoImmediates error: %v", err)
 		return ExitPanic, pc
@@ -424,7 +425,7 @@ func instStoreImmU32(interp *Interpreter, pc ProgramCounter, skipLength ProgramC
 
 // opcode 33
 func instStoreImmU64(interp *Interpreter, pc ProgramCounter, skipLength ProgramCounter) (ExitReason, ProgramCounter) {
-	vx, vy, err := decodeTwoImmediates(interp.Program.InstructionData, pc, skipLength)
+	vx, vy, err := decodeTwoImmediates(zetaAt(interp.Program.InstructionData, pc), pc, skipLength)
 	if err != nil {
 		pvmLogger.Errorf("instStoreImmU64 decodeTwoImmediates error: %v", err)
 		return ExitPanic, pc
